@@ -88,3 +88,37 @@ func min(a, b int) int {
 	}
 	return b
 }
+
+// tlsTrailJunk appends k junk bytes to a TLS handshake message (or any structure of nested big-endian length
+// prefixes) and adds k to the `depth` outermost length fields that span to the end of the message, so that all
+// enclosing lengths stay mutually consistent while the innermost adjusted vector ends in k stray bytes.
+// depth <= 0 adjusts every spanning field.
+func tlsTrailJunk(msg []byte, k, depth int) []byte {
+	out := append([]byte{}, msg...)
+	adjusted := 0
+	for off := 1; off < len(msg) && (depth <= 0 || adjusted < depth); off++ {
+		for _, w := range []int{3, 2, 1} {
+			if off+w > len(msg) {
+				continue
+			}
+			v := 0
+			for j := 0; j < w; j++ {
+				v = v<<8 | int(msg[off+j])
+			}
+			if v == len(msg)-off-w && v > 0 {
+				nv := v + k
+				for j := w - 1; j >= 0; j-- {
+					out[off+j] = byte(nv)
+					nv >>= 8
+				}
+				adjusted++
+				off += w - 1
+				break
+			}
+		}
+	}
+	for j := 0; j < k; j++ {
+		out = append(out, byte(0xA5+j))
+	}
+	return out
+}
